@@ -531,7 +531,8 @@ def oracle_matchers(sim, rr, out):
             if not has_mm and raised is not None:
                 out.violate("assertThat-verdict", f"{what}:raised-on-match", f"op {oid} raised {raised}")
         else:
-            if raised is not None:
+            # (has_mm == "raises": the scripted mismatch's own describe() raises - that error is the stage's)
+            if raised is not None and has_mm != "raises":
                 out.violate("expectThat-raised", "has-mismatch" if has_mm else "no-mismatch", f"op {oid} raised {raised}")
     if m.expect_mismatches:
         out.probe("expectThat-mismatch")
